@@ -112,6 +112,7 @@ type hwAgg struct {
 	seq     *hwSeq
 	inst    int
 	samples []hwSample
+	peeked  int
 	onRep   func(s hwSample)
 }
 
@@ -149,11 +150,21 @@ func (a *hwAgg) Report(s core.Sample) {
 	}
 }
 
+// peekNew returns the samples reported since the last peekNew without removing them.
+func (a *hwAgg) peekNew() []hwSample {
+	a.mu.Lock()
+	defer a.mu.Unlock()
+	out := a.samples[a.peeked:]
+	a.peeked = len(a.samples)
+	return out
+}
+
 func (a *hwAgg) drain() []hwSample {
 	a.mu.Lock()
 	defer a.mu.Unlock()
 	out := a.samples
 	a.samples = nil
+	a.peeked = 0
 	return out
 }
 
